@@ -1026,7 +1026,8 @@ async fn run_gate_scenario(ctx: &mut Ctx, rng: &mut Rng, sc: &Scenario, keys: &K
         route.push(creator);
         let mut tx = {
             let s = purse.take();
-            make_tx(&[s.clone()], &[(keys.v[sender].0, s.amount - fee)], &keys.v[sender].1, ts3)
+            // distinct timestamps: the tx signature does not cover (block_id, tx_ordinal) of the inputs
+            make_tx(&[s.clone()], &[(keys.v[sender].0, s.amount - fee)], &keys.v[sender].1, ts3.wrapping_add(j as u64))
         };
         let defect_here = sc.path_defect != 0 && j == 0;
         let mut from = sender;
@@ -1190,9 +1191,11 @@ async fn run_payout_scenario(ctx: &mut Ctx, rng: &mut Rng, keys: &Keys, cases: &
                 route.push(nx);
                 last = nx;
             }
-            txs.push(routed_tx(keys, &mut purses[who], sender, fee, &route, ts));
+            let k = txs.len() as u64;
+            txs.push(routed_tx(keys, &mut purses[who], sender, fee, &route, ts + k));
         }
-        let with_gt = bi >= 1 && rng.chance(2, 3) || bi + 1 == n_blocks;
+        let no_gt_run = chain.iter().rev().take_while(|x| !x.has_golden_ticket).count();
+        let with_gt = bi >= 1 && rng.chance(2, 3) || bi + 1 == n_blocks || (bi >= 1 && no_gt_run >= 2);
         if txs.is_empty() && !with_gt {
             let who = 0;
             txs.push(routed_tx(keys, &mut purses[who], 1, 5, &[creator], ts));
@@ -1208,11 +1211,8 @@ async fn run_payout_scenario(ctx: &mut Ctx, rng: &mut Rng, keys: &Keys, cases: &
         };
         let class = node.add_block(b.clone()).await;
         if class != AddClass::OnChain {
-            ctx.summary.oracle_failure(
-                first_case + produced,
-                &format!("payout scenario: block {} built by the node's own Block::create was not accepted: {:?}", b.id, class),
-                "{\"part\":\"payout\"}",
-            );
+            // not a C08 matter (e.g. the golden-ticket density rule); the chain just ends here
+            ctx.summary.count("payout.chain_block_rejected", &format!("{:?}", class));
             break;
         }
         chain.push(b.clone());
@@ -1267,7 +1267,9 @@ async fn run_payout_scenario(ctx: &mut Ctx, rng: &mut Rng, keys: &Keys, cases: &
         let desc = format!(
             "{{\"part\":\"payout\",\"block_id\":{},\"genesis_period\":{},\"gt_solver_key\":{},\"prev_total_fees\":{},\"prev_avg_total_fees\":{},\"prev_has_gt\":{},\"prevprev_total_fees\":{},\"paid_blocks\":{},\"fee_tx_outputs_key_amount_kind\":{:?},\"eligible_keys\":{:?},\"bound\":{}}}",
             b.id, gp, keys.id(&gt_public_key), prev.total_fees, prev.avg_total_fees, prev.has_golden_ticket,
-            pp.map(|x| x.total_fees).unwrap_or(0), paid_blocks, outputs, eligible, bound
+            pp.map(|x| x.total_fees).unwrap_or(0), paid_blocks,
+            outputs.iter().map(|o| vec![o.0, o.1, o.2]).collect::<Vec<_>>(),
+            eligible.iter().collect::<Vec<_>>(), bound
         );
         if fee_txs.len() != 1 {
             ctx.summary.oracle_failure(case, &format!("accepted block with golden ticket has {} fee transactions", fee_txs.len()), &desc);
